@@ -348,8 +348,34 @@ class S(object):
             return repr(s)
 
 
+class ArrHandle(object):
+    """what `arr.ctypes.data_as(...)` yields for a symbolic array: the FFI bridge (vf.llsym.bridge) resolves it
+    back to the array instead of a raw address"""
+
+    def __init__(self, arr):
+        self.arr = arr
+
+
+class _CT(object):
+    def __init__(self, arr):
+        self._arr = arr
+
+    def data_as(self, t):
+        return ArrHandle(self._arr)
+
+    @property
+    def data(self):
+        return ArrHandle(self._arr)
+
+
 class SArr(np.ndarray):
     """object ndarray whose .astype(float) does not force concretisation"""
+
+    @property
+    def ctypes(self):
+        if self.dtype == object:
+            return _CT(self)
+        return np.ndarray.ctypes.__get__(self)
 
     def astype(self, dtype, *a, **k):
         try:
